@@ -618,6 +618,43 @@ func c04SpecialAtEveryPosition(run *mon.Run, cv ref.Conv) {
 					run.Violate("C04:public-sum:special-element:"+kind, fmt.Sprintf("AggregateBLSPublicKeys of %d keys with %s at position %d = %x (err %v), reference %x", M, kind, p, pkEncOrNil(aPk), e2, want), rep)
 				}
 			}
+			// a malformed (but 48-byte) element at this position: the whole aggregation is refused, wherever in
+			// the list the element sits
+			if !run.Quick() || p%3 == 0 || p == 63 || p == 64 || p == 65 || p == 127 || p == 128 || p == 129 || p == M-1 {
+				bads := map[string][]byte{"bad-header": append([]byte{0xE0}, make([]byte, 47)...), "infinity-with-garbage": append(append([]byte{0xC0}, make([]byte, 46)...), 1), "uncompressed-flag": append([]byte{}, sigs[p]...), "x-not-on-curve": nil, "x-equals-p": nil}
+				bads["uncompressed-flag"][0] &= 0x7f
+				for x := int64(1); x < 40; x++ {
+					c := make([]byte, 48)
+					c[47] = byte(x)
+					c[0] = 0x80
+					if _, cls := ref.DecodeG1(c); cls != ref.DecOK {
+						bads["x-not-on-curve"] = c
+						break
+					}
+				}
+				pb := ref.P.FillBytes(make([]byte, 48))
+				pb[0] |= 0x80
+				bads["x-equals-p"] = pb
+				names := []string{"bad-header", "infinity-with-garbage", "uncompressed-flag", "x-not-on-curve", "x-equals-p"}
+				for bi, name := range names {
+					if bads[name] == nil || (run.Quick() && (p+bi)%2 == 1) {
+						continue
+					}
+					sl := append([]crypto.Signature{}, sigs...)
+					sl[p] = bads[name]
+					var out crypto.Signature
+					var e error
+					rep := map[string]any{"list_size": M, "position": p, "kind": name}
+					if run.Guard("aggregation(malformed element)", rep, func() { out, e = crypto.AggregateBLSSignatures(sl) }) {
+						return
+					}
+					run.Eval(1)
+					run.Count("special-positions.malformed", 1)
+					if e == nil || !crypto.IsInvalidSignatureError(e) || out != nil {
+						run.Violate("C04:error-class:malformed-element-in-long-list", fmt.Sprintf("AggregateBLSSignatures of %d signatures with a malformed one (%s) at position %d returned (%x, %v); an invalid-signature error is documented", M, name, p, []byte(out), e), rep)
+					}
+				}
+			}
 			if p%32 == 0 {
 				run.Shape(fmt.Sprintf("special-position|%d", p))
 			}
@@ -625,6 +662,7 @@ func c04SpecialAtEveryPosition(run *mon.Run, cv ref.Conv) {
 	}
 	wg.Wait()
 	run.Require(run.Counter("special-positions.cases") >= int64(M), "special-element sweep incomplete")
+	run.Require(run.Counter("special-positions.malformed") >= int64(M/4), "malformed-element sweep incomplete")
 }
 
 func c04Corners(run *mon.Run, r *rand.Rand, cv ref.Conv) {
